@@ -311,13 +311,18 @@ def run(ctx: Ctx) -> None:
     ok = len(apps) == 1
     why = "field loop anchor vanished"
     if ok:
-        deps = [(norm(d.cond), lab) for d, lab in icfg2.control_deps(apps[0]) if d.loop is None]
+        def canon(c: ast.AST, lab: str):
+            # `not X` on the false side is X on the true side; a skip written as `if not X: continue` guards the rest by X
+            while isinstance(c, ast.UnaryOp) and isinstance(c.op, ast.Not):
+                c = c.operand
+                lab = "T" if lab == "F" else "F"
+            return (norm(c), lab)
+        deps = [canon(d.cond, lab) for d, lab in icfg2.control_deps(apps[0]) if d.loop is None and d.cond is not None]
         want = {("is_dataclass(o)", "T"), ("f.repr and f.compare", "T"), ("v != default", "T")}
         extra = set(deps) - want
         missing = want - set(deps)
-        conts = [n for n in icfg2.nodes if n.kind == "stmt" and isinstance(n.stmt, ast.Continue)]
-        ok = not extra and not missing and not conts
-        why = f"a field is emitted under {sorted(deps)}; required exactly {sorted(want)}" + ("; the loop also skips with `continue`" if conts else "")
+        ok = not extra and not missing
+        why = f"a field is emitted under {sorted(deps)}; required exactly {sorted(want)}"
     ctx.ob("R20.5", "gentest:nondefault_repr|skip conditions", ok, msg=why + ": a field whose value differs from its declared default would be omitted (or a default one printed), so the repr no longer reconstructs an equal object", node=inner, mod=gt)
     ok = "f.default_factory is not MISSING" in txt and "default = f.default_factory()" in txt and "default = f.default" in txt
     ctx.ob("R20.5", "gentest:nondefault_repr|declared default is factory-aware", ok, msg="the declared default is not taken from default_factory() when one exists", node=inner, mod=gt, nontrivial=False)
